@@ -87,9 +87,20 @@ Definition chk_finder (t : optable) : list F :=
   fail_if t "findlabels binding" (String.eqb (t_findlabels t)
      (if tuple_ltb (t_version t) [3; 6]%Z then "cross_dis.findlabels" else "wordcode.findlabels")).
 
+(* opcodes whose jump class is the same in every CPython release that has them (opcode.py / dis.py: jrel_op, jabs_op), checked by NAME so that the
+   tables of versions without an installed interpreter are covered too: FOR_LOOP (1.0-2.2, "number of bytes to skip"), JUMP_FORWARD, SETUP_LOOP,
+   SETUP_EXCEPT, SETUP_FINALLY and FOR_ITER are relative; JUMP_ABSOLUTE and CONTINUE_LOOP are absolute *)
+Definition always_rel : list string := ["FOR_LOOP"; "JUMP_FORWARD"; "SETUP_LOOP"; "SETUP_EXCEPT"; "FOR_ITER"]%string.
+Definition always_abs : list string := ["JUMP_ABSOLUTE"; "CONTINUE_LOOP"]%string.
+Definition chk_jump_names (t : optable) : list F :=
+  fails t "a relative jump by name (jrel_op in every CPython that has it) is not in hasjrel"
+        (flat_map (fun nm => match sassoc nm (t_opmap t) with Some n => if zmem n (t_hasjrel t) then [] else [n] | None => [] end) always_rel)
+  +++ fails t "an absolute jump by name (jabs_op in every CPython that has it) is not in hasjabs"
+        (flat_map (fun nm => match sassoc nm (t_opmap t) with Some n => if zmem n (t_hasjabs t) then [] else [n] | None => [] end) always_abs).
+
 Definition table_failures (t : optable) : list F :=
   chk_bijection t +++ chk_categories t +++ chk_disjoint t +++ chk_extended t +++ chk_frozen t +++ chk_finder t.
-Definition coherence_failures : list F := flat_map table_failures all_tables.
+Definition coherence_failures : list F := flat_map table_failures all_tables +++ flat_map chk_jump_names all_tables.
 
 (* --- agreement with the interpreter's opcode module, where one is installed --- *)
 Definition pair_eqb (a b : string * Z) : bool := String.eqb (fst a) (fst b) && (snd a =? snd b)%Z.
